@@ -514,7 +514,9 @@ class URL:
         self.port = ud['port']
         self.path_parts = tuple([unquote(p) if '%' in p else p for p
                                  in (ud['path'] or _e).split('/')])
-        self._query = ud['query'] or _e
+        # None: the text has no query component at all; '': a bare '?'
+        # (RFC 3986 5.2.2 tells them apart, see navigate())
+        self._query = ud['query']
         self.fragment = (unquote(ud['fragment'])
                          if '%' in (ud['fragment'] or _e) else ud['fragment'] or _e)
         # TODO: possibly use None as marker for empty vs missing
@@ -567,7 +569,7 @@ class URL:
         >>> url.qp.keys()
         [u'utm_source', u'python']
         """
-        return QueryParamDict.from_text(self._query)
+        return QueryParamDict.from_text(self._query or '')
 
     qp = query_params
 
@@ -688,7 +690,9 @@ class URL:
                 new_path_parts = base_parts + list(dest.path_parts)
         else:
             new_path_parts = list(self.path_parts)
-            if not query_params:
+            if not query_params and dest._query is None:
+                # RFC 3986 5.2.2: only an undefined query inherits the
+                # base query; a present-but-empty one ('?') replaces it
                 query_params = self.query_params
 
         ret = self.from_parts(scheme=dest.scheme or self.scheme,
